@@ -128,7 +128,7 @@ fn run_one(case: Case) -> Value {
                 return json!({"id": case.id, "end": "panic", "panic": p, "stage": "symbols", "events": events});
             }
         }
-        for n in [1usize, 8] {
+        for n in [1usize, 8, 0] {
             match guarded(std::panic::AssertUnwindSafe(|| to_listing(&ctx, n))) {
                 Ok(Ok(l)) => events.push(json!({"ev": "listing", "bpl": n, "files": l.len()})),
                 Ok(Err(e)) => events.push(json!({"ev": "listing", "bpl": n, "diags": diags_to_json(&e)})),
